@@ -273,6 +273,15 @@ def gen_cases(rng, tier):
         rng.shuffle(strs2)
         nested = [Con("VFset", [Con("VInt", i) for i in ints]), Con("VInt", 1)]
         nested2 = [Con("VFset", [Con("VInt", i) for i in ints2]), Con("VInt", 1)]
+        if rng.random() < 0.5:
+            # a frozenset OF frozensets (sets are only partially ordered by <: the canonical order must not rest on it;
+            # seeded change C01-11), its members listed in two orders
+            inner = [Con("VFset", [Con("VInt", i) for i in ints[:k]]) for k in range(1, len(ints) + 1)]
+            inner += [Con("VFset", [Con("VInt", 99)]), Con("VFset", [Con("VInt", 7), Con("VInt", 99)])]
+            inner2 = inner[:]
+            rng.shuffle(inner2)
+            nested = nested + [Con("VFset", inner)]
+            nested2 = nested2 + [Con("VFset", inner2)]
         def leaf(addr, i, s_, nv):
             return Con("N", addr, "Leaf" + tag, Con("ONo"),
                        [Con("P", "s", Con("VFset", [Con("VInt", x) for x in i])), Con("P", "t", Con("VFset", [Con("VStr", x) for x in s_])),
